@@ -137,6 +137,13 @@ def analyse(m, f, contracts):
                 continue
             if st.bottom:
                 continue
+            # a for loop's increment lives in the block the back edges lead to: apply it before looking
+            if blocks[pl[0]]["el"]:
+                st = z.copy(st)
+                for e_ in blocks[pl[0]]["el"]:
+                    if id(e_) in z.hooks:
+                        continue
+                    Zone.transfer(z, f, st, e_, blocks[pl[0]])
             seen_edge[w] += 1
             last = [e["n"] for e in b["el"] if isinstance(e.get("n"), int) and not e.get("k")]
             where = f.loc(last[-1]) if last else f.loc(w)
